@@ -17,4 +17,6 @@ props! {
     c05: C05: "C05",
     c06: C06: "C06",
     c14: C14: "C14",
+    c15: C15: "C15",
+    c16: C16: "C16",
 }
